@@ -7,6 +7,7 @@ import (
 	"fmt"
 	"reflect"
 	"strings"
+	"sync"
 
 	"github.com/hashicorp/go-argmapper/internal/graph"
 	"github.com/hashicorp/go-multierror"
@@ -146,7 +147,12 @@ func (f *Func) redefineInputs(opts ...Arg) (reflect.Type, error) {
 		switch v := v.(type) {
 		case *funcVertex:
 			// Copy the func since we're going to modify a field in it.
+			// The copy gets its own lock: it must never block on (or
+			// publish a planning result to) the real function.
+			v.Func.onceLock.Lock()
 			fCopy := *v.Func
+			v.Func.onceLock.Unlock()
+			fCopy.onceLock = &sync.Mutex{}
 			v.Func = &fCopy
 
 			// Modify the function to be a zero producing function.
